@@ -755,6 +755,12 @@ func (env *Env) callExpr(e *ECall) V {
 		argc(2)
 		a, b := env.eval(e.Args[0]), env.eval(e.Args[1])
 		return boolV(and(eq(a.T[0], b.T[0]), not(eq(a.T[0], "0")), eq(a.T[1], b.T[1]), sx("bvsle", a.T[2], b.T[3])))
+	case "grown":
+		// grown(a, b): a is what appending to b yields: b's array with b's capacity and at least b's length, or a newly
+		// allocated array
+		argc(2)
+		a, b := env.eval(e.Args[0]), env.eval(e.Args[1])
+		return boolV(or(and(sx(">=", a.T[0], env.oldAc), sx("bvsge", a.T[2], b.T[2])), and(eq(a.T[0], b.T[0]), eq(a.T[1], b.T[1]), eq(a.T[3], b.T[3]), sx("bvsge", a.T[2], b.T[2]))))
 	case "sameslice":
 		argc(2)
 		a, b := env.eval(e.Args[0]), env.eval(e.Args[1])
@@ -1166,6 +1172,11 @@ func (env *Env) resolveTarget(text string) []modTarget {
 	switch e := x.(type) {
 	case *ESel:
 		p := env.withState(env.old, func() V { return env.eval(e.X) })
+		if ta, ok := e.X.(*ETypeAssert); ok && isPointer(p.Ty) {
+			// x.(*T).f : a target only when x's dynamic type is *T; otherwise the target denotes no object (ref -1)
+			iv := env.withState(env.old, func() V { return env.eval(ta.X) })
+			p = V{Ty: p.Ty, T: []string{ite(eq(iv.T[0], fc.tagTerm(p.Ty)), p.T[0], "(- 1)")}}
+		}
 		if e.Name == "*" {
 			return []modTarget{structAll(p)}
 		}
@@ -1202,6 +1213,10 @@ func (env *Env) resolveTarget(text string) []modTarget {
 			b = env.withState(env.old, func() V { return env.eval(s.X) })
 			lo = fc.toInt64(env.constTo(env.withState(env.old, func() V { return env.eval(s.I) }), types.Typ[types.Int]))
 			hi = add64(lo, bvLit(1, 64))
+		}
+		if isSlice(b.Ty) && len(env.bound) == 0 {
+			// the slice header comes from the heap or a parameter: its type invariant (0 <= len <= cap, bounded offset)
+			fc.assume(fc.wfAc(b, env.old.ac))
 		}
 		et := elemOf(b.Ty)
 		mt := modTarget{kind: "mem", ref: b.T[0], lo: fc.def("tlo", sBV(64), add64(b.T[1], lo)), hi: fc.def("thi", sBV(64), add64(b.T[1], hi))}
@@ -1337,9 +1352,14 @@ func (fc *FnCtx) ownTargets() []modTarget {
 	}
 	env := fc.newEnv(fc.entry, fc.entry)
 	out := []modTarget{}
+	// the targets are values of the entry state: facts about them (type invariants of slice headers) hold whatever
+	// block happens to ask for them first
+	saved := fc.reach
+	fc.reach = "true"
 	for _, m := range fc.c.Modifies {
 		out = append(out, env.resolveTarget(m)...)
 	}
+	fc.reach = saved
 	fc.ownT = out
 	return out
 }
@@ -1475,7 +1495,7 @@ func (fc *FnCtx) frameCheckTarget(mt modTarget, pos token.Pos, text string) {
 			}
 			goal = or(alts...)
 		} else {
-			goal = fc.frameGoalF(fs, mt.keys[0], mt.ref, "")
+			goal = or(eq(mt.ref, "(- 1)"), fc.frameGoalF(fs, mt.keys[0], mt.ref, ""))
 		}
 		fc.oblige("frame", fs.label+"call{"+fc.srcText(pos, isKind[*astCall])+"}.modifies{"+text+"}", goal, pos, fc.cprops(), fs.text)
 	}
@@ -1512,6 +1532,27 @@ func (fc *FnCtx) readKeys(f *SpecFun) []readKey {
 				out = append(out, readKey{"M:bv8.", memSort(sBV(8))})
 			default:
 				panic(specErr("hfun %s: unknown memory class %s", f.Name, r))
+			}
+			continue
+		}
+		if strings.HasPrefix(r, "map:") {
+			// map:pkg.Type.field : the domain and value arrays of the map type of that field
+			parts := strings.Split(strings.TrimPrefix(r, "map:"), ".")
+			if len(parts) != 3 {
+				panic(specErr("hfun %s: reads %s: want map:pkg.Type.field", f.Name, r))
+			}
+			t, err := fc.e.lookupType(parts[0]+"."+parts[1], nil)
+			if err != nil {
+				panic(specErr("hfun %s: %v", f.Name, err))
+			}
+			_, ft, ok := fieldPath(t, parts[2])
+			if !ok || !isMap(ft) {
+				panic(specErr("hfun %s: %s is not a map field", f.Name, r))
+			}
+			dom, _, vals, _ := fc.mapKeys(ft)
+			out = append(out, readKey{dom, fc.keySort[dom]})
+			for _, v := range vals {
+				out = append(out, readKey{v, fc.keySort[v]})
 			}
 			continue
 		}
